@@ -317,6 +317,7 @@ def params():
 L_SERVE, L_SHUTDOWN, L_CLOSE, L_CONNECT, L_DISCONNECT, L_OBSERVE, L_REL_FACTORY, L_REL_INIT, L_REL_CLIENT, L_UDPQ = range(10)
 L_PRE_SHUTDOWN, L_RESUME, L_NST_START = 10, 11, 12
 L_SERVE_P1, L_SERVE_P2, L_CLOSE_P2, L_REL_PAUSE = 13, 14, 15, 16
+L_FACTORY_FAIL, L_API_INSIDE, L_REL_QUIT = 17, 18, 19
 CALLS = (L_SERVE, L_SHUTDOWN, L_CLOSE, L_PRE_SHUTDOWN, L_SERVE_P1, L_SERVE_P2, L_CLOSE_P2)
 
 
@@ -365,6 +366,8 @@ def _status(fut_exc, done):
             return 5
     if isinstance(exc, (asyncio.CancelledError,)):
         return 6
+    if type(exc) is OSError:
+        return 7            # the error of the (scripted) listeners factory
     return 9
 
 
@@ -417,17 +420,28 @@ class _AsyncWorld:
         from easynetwork.serializers.line import StringLineSerializer
         from easynetwork.servers.handlers import AsyncDatagramRequestHandler, AsyncStreamRequestHandler
         self.cases += 1
-        kind, (gf, gi, gc), labels = inp[0], inp[1], inp[2]
-        gate_f, gate_i, gate_c = asyncio.Event(), asyncio.Event(), asyncio.Event()
-        for g, on in ((gate_f, gf), (gate_i, gi), (gate_c, gc)):
+        kind, labels = inp[0], inp[2]
+        gf, gi, gc = inp[1][:3]
+        gq = inp[1][3] if len(inp[1]) > 3 else 0
+        gate_f, gate_i, gate_c, gate_q = asyncio.Event(), asyncio.Event(), asyncio.Event(), asyncio.Event()
+        for g, on in ((gate_f, gf), (gate_i, gi), (gate_c, gc), (gate_q, gq)):
             if not on:
                 g.set()
+        factory_error = []
+
+        async def service_setup(exit_stack, server):
+            async def service_quit():
+                # a service whose tear-down takes time; it runs in the serve_forever task inside the cancelled run scope,
+                # so it has to be shielded like any real clean-up that awaits
+                await server.backend().ignore_cancellation(gate_q.wait())
+            exit_stack.push_async_callback(service_quit)
+            await gate_i.wait()
         never = asyncio.Event()
         connected = []
 
         class SH(AsyncStreamRequestHandler):
             async def service_init(self, exit_stack, server):
-                await gate_i.wait()
+                await service_setup(exit_stack, server)
 
             async def on_connection(self, client):
                 connected.append(client)
@@ -442,7 +456,7 @@ class _AsyncWorld:
 
         class DH(AsyncDatagramRequestHandler):
             async def service_init(self, exit_stack, server):
-                await gate_i.wait()
+                await service_setup(exit_stack, server)
 
             async def handle(self, client):
                 req = yield
@@ -465,6 +479,9 @@ class _AsyncWorld:
 
         async def gated_factory():
             await gate_f.wait()
+            if factory_error:
+                import errno
+                raise OSError(errno.EADDRINUSE, "scripted listener factory: address already in use")
             return await orig_factory()
 
         setattr(srv, attr, gated_factory)
@@ -505,7 +522,15 @@ class _AsyncWorld:
                     gate_i.set()
                 elif lab == L_REL_CLIENT:
                     gate_c.set()
+                elif lab == L_REL_QUIT:
+                    gate_q.set()
+                elif lab == L_FACTORY_FAIL:
+                    factory_error.append(1)
+                    gate_f.set()
                 await self._settle()
+                del factory_error[:]
+                if gq:
+                    gate_q.clear()
                 # gates are one-shot per release label
                 if gf:
                     gate_f.clear()
@@ -527,7 +552,7 @@ class _AsyncWorld:
                         addr = (a[0].host, a[0].port)
                 obs.append([st, int(srv.is_serving()), int(srv.is_listening()), _port_bound(kind, addr)])
         finally:
-            gate_f.set(), gate_i.set(), gate_c.set(), never.set()
+            gate_f.set(), gate_i.set(), gate_c.set(), gate_q.set(), never.set()
             for _r, w in clients:
                 with contextlib.suppress(Exception):
                     w.close()
@@ -705,12 +730,21 @@ def _run_standalone(inp):
             with contextlib.suppress(RuntimeError):
                 loop.call_soon_threadsafe(ev.set)
 
+    srv_ref = []
+
+    def api_from_inside():
+        # lifecycle queries issued by a request handler, i.e. from INSIDE the server thread
+        srv_ref[0].is_serving()
+        srv_ref[0].get_addresses()
+
     class SH(AsyncStreamRequestHandler):
         async def service_init(self, exit_stack, server):
             await held_service_init()
 
         async def handle(self, client):
             req = yield
+            if req == "api":
+                api_from_inside()
             await client.send_packet("re:" + req)
 
     class DH(AsyncDatagramRequestHandler):
@@ -721,6 +755,8 @@ def _run_standalone(inp):
             req = yield
             if req == "busy":
                 await asyncio.Event().wait()
+            if req == "api":
+                api_from_inside()
             await client.send_packet("re:" + req)
 
     logger = logging.getLogger("c18")
@@ -754,6 +790,7 @@ def _run_standalone(inp):
     else:
         from easynetwork.servers.standalone_udp import StandaloneUDPNetworkServer
         srv = StandaloneUDPNetworkServer("127.0.0.1", 0, DatagramProtocol(StringLineSerializer()), DH(), logger=logger)
+    srv_ref.append(srv)
     # Both locks of the wrapper are replaced (ForkSafeLock's own lock_factory) by re-entrant locks with two kinds of gate:
     #  * tear-down gate: the serving thread is held back right before it RE-acquires the bootstrap lock at the end of
     #    serve_forever (its second acquisition of that lock), i.e. between two callbacks of its exit stack;
@@ -857,6 +894,18 @@ def _run_standalone(inp):
                         _quiesce()
                         s.sendto(b"queued", (a[0].host, a[0].port))
                         clients.append(s)
+            elif lab == L_API_INSIDE:
+                a = _query(lambda: srv.get_addresses() if srv.is_serving() else (), None)
+                if a:
+                    if kind == 2:
+                        with socket.create_connection((a[0].host, a[0].port), timeout=WATCHDOG) as c:
+                            c.sendall(b"api\n")
+                            c.recv(100)
+                    else:
+                        with socket.socket(socket.AF_INET, socket.SOCK_DGRAM) as c:
+                            c.settimeout(WATCHDOG)
+                            c.sendto(b"api", (a[0].host, a[0].port))
+                            c.recv(100)
             elif lab == L_REL_FACTORY:
                 window_gate.set()
             elif lab == L_REL_INIT:
@@ -951,6 +1000,8 @@ def _nontrivial(labels):
 def _mk(kind, gates, labels, extra=()):
     tags = [("async-tcp", "async-udp", "standalone-tcp", "standalone-udp")[kind], f"len{min(len(labels), 8)}",
             "gates" + "".join(map(str, gates))] + list(extra)
+    if L_API_INSIDE in labels:
+        tags.append("has-api-inside")
     for name, lab in (("serve", 0), ("shutdown", 1), ("close", 2), ("connect", 3), ("udp-queued", 9), ("server-thread", 12)):
         if lab in labels:
             tags.append("has-" + name)
@@ -1042,6 +1093,25 @@ def _cases(tier, rng, escalate):
                     yield _mk(kind, (0, 0, 0), seq, ["server-thread"])
         for seq in ([12, 1, 8, 0, 8], [12, 2, 12, 8], [0, 1, 12, 8, 1, 8]):
             yield _mk(kind, (0, 0, 1), seq, ["teardown-window", "server-thread"])
+    # asynchronous servers: the service's own tear-down (service_quit) held, alone and together with a slow client:
+    # overlapping shutdown / serve_forever / server_close at every point of the tear-down
+    for kind in (0, 1):
+        for n in range(2, maxlen + 1):
+            for seq in itertools.product([L_SERVE, L_SHUTDOWN, L_CLOSE, L_REL_QUIT], repeat=n):
+                if seq[0] == L_SERVE and (L_SHUTDOWN in seq or L_CLOSE in seq):
+                    yield _mk(kind, (0, 0, 0, 1), seq, ["exhaustive", "quit-held"])
+    for seq in ([0, 3, 1, 1, 8, 1, 19], [0, 3, 1, 8, 1, 0, 19, 0], [0, 3, 2, 1, 8, 1, 19, 0], [0, 3, 1, 1, 19, 8], [0, 3, 1, 2, 8, 0, 19]):
+        yield _mk(0, (0, 0, 1, 1), seq, ["quit-held", "clients"])
+    # restart after an activation that FAILED (bind error from the scripted listeners factory) or was interrupted
+    for kind in (0, 1):
+        for seq in ([0, 17], [0, 17, 0, 6], [0, 17, 0, 6, 1], [0, 1, 0, 6], [0, 17, 2, 0], [0, 17, 0, 17, 0, 6], [0, 1, 2, 0],
+                    [0, 2, 0], [0, 17, 1, 0, 6, 1, 0, 17]):
+            yield _mk(kind, (1, 0, 0), seq, ["activation-failed"])
+    # standalone servers: lifecycle queries issued by a request handler, i.e. from inside the server thread
+    for kind in (2, 3):
+        for seq in ([0, 18], [0, 18, 1], [0, 18, 2], [0, 18, 18, 1, 0, 18, 1], [12, 18, 1], [0, 18, 2, 0], [0, 18, 5, 1]):
+            yield _mk(kind, (0, 0, 0), seq, ["api-from-inside"])
+    yield _mk(2, (0, 0, 0), [0, 3, 18, 2, 4], ["api-from-inside", "clients"])
     # a call held between two of its lock acquisitions (serve_forever before its 1st / 2nd lock, server_close before its
     # 2nd), one other call meanwhile (threading locks are not FIFO), release, follow-up
     for kind in (2, 3):
@@ -1147,6 +1217,11 @@ def oracle(inp):
                 if older_running:
                     return (f"shutdown returned while the serve_forever call it stopped has not returned "
                             f"[kind={kind} labels={labels[:step + 1]}]")
+        # the server must not stop reporting that it serves unless something asked it to stop
+        if step > 0 and obs[step - 1][1] == 1 and serving == 0 and \
+                lab in (L_API_INSIDE, L_OBSERVE, L_CONNECT, L_SERVE, L_NST_START, L_UDPQ, L_REL_INIT, L_SERVE_P1):
+            return (f"is_serving() turned False although nothing asked the server to stop "
+                    f"[kind={kind} labels={labels[:step + 1]}]")
         # NetworkServerThread.start() must return once the server is up or its thread has ended
         for i, (k, s) in enumerate(zip(kinds, st)):
             if k == L_NST_START and s == 0 and i + 1 < len(st) and st[i + 1] != 0:
